@@ -34,12 +34,18 @@ type Set []Term
 func (Set) Type() TermType { return TermTypeSet }
 func (s Set) Equal(t Term) bool {
 	c, ok := t.(Set)
-	if !ok || len(c) != len(s) {
+	if !ok {
 		return false
 	}
 
+	// inclusion in both directions: a repeated element must not change the answer
 	for _, id := range s {
 		if !c.has(id) {
+			return false
+		}
+	}
+	for _, id := range c {
+		if !s.has(id) {
 			return false
 		}
 	}
@@ -67,7 +73,7 @@ func (s Set) Intersect(t Set) Set {
 	result := Set{}
 
 	for _, id := range s {
-		if t.has(id) {
+		if t.has(id) && !result.has(id) {
 			result = append(result, id)
 		}
 	}
@@ -75,15 +81,24 @@ func (s Set) Intersect(t Set) Set {
 }
 func (s Set) Union(t Set) Set {
 	result := Set{}
-	result = append(result, s...)
 
+	for _, id := range s {
+		if !result.has(id) {
+			result = append(result, id)
+		}
+	}
 	for _, id := range t {
-		if !s.has(id) {
+		if !result.has(id) {
 			result = append(result, id)
 		}
 	}
 
 	return result
+}
+
+// Len returns the number of distinct elements of the set.
+func (s Set) Len() int {
+	return len(s.Union(nil))
 }
 
 type Variable uint32
